@@ -29,7 +29,7 @@ DESTS = ["same_buffer", "other_buffer", "other_context_buffer", "other_context",
 
 
 def budget(tier):
-    return {"examples": 300 if tier == "quick" else 4000}
+    return {"examples": 800 if tier == "quick" else 8000}
 
 
 def essential_labels(tier):
